@@ -75,3 +75,50 @@ pub proof fn lemma_laguerre_filter_bibo(i: LaguerreFilterOwn, h: Seq<T>, b: real
         lemma_rdiv_mul(y.v() + 2real * y.v() + 2real * y.v() + y.v(), 6real);
     }
 }
+
+// ---- SuperSmoother: the two-pole section with input.  Input samples within [-b, b] give a forcing term |u| <= c1 b (c1 = 1 - b1 + a1^2 > 0);
+// the Lyapunov form of the state then never exceeds m^2 with (1 - a1) m == c1 b  (lemma_two_pole_forced), and it dominates the output:
+// (1 - cos^2) f^2 <= m^2.  Neither m nor the cosine depends on the length of the stream.
+pub open spec fn ss_cos(n: nat) -> real { r_cos(rdiv(44422real / 10000real, n as real)) }
+pub proof fn lemma_super_smoother_bibo(i: SuperSmootherOwn, h: Seq<T>, n: nat, b: real, m: real)
+    requires n >= 1, i.c1 == mk(ss_c1(n)), i.c2 == mk(ss_b1(n)), i.c3 == mk(ss_c3(n)), i.f1.v() == 0real, i.f2.v() == 0real, i.x1.v() == 0real,
+        b >= 0real, m >= 0real, all_within(h, b), (1real - ss_a1(n)) * m == ss_c1(n) * b
+    ensures ({ let s = run::<SuperSmoother<Echo>>((None::<T>, i), h);
+               s.1.c1 == i.c1 && s.1.c2 == i.c2 && s.1.c3 == i.c3 && -b <= s.1.x1.v() <= b
+               && ss_form(n, s.1.f1.v(), s.1.f2.v()) <= m * m
+               && (1real - ss_cos(n) * ss_cos(n)) * (s.1.f1.v() * s.1.f1.v()) <= m * m })
+    decreases h.len()
+{
+    lemma_ss_coeffs(n);
+    let a = ss_a1(n); let c = ss_cos(n);
+    ax_cos_bound(rdiv(44422real / 10000real, n as real));
+    if h.len() > 0 {
+        let hd = h.drop_last(); let y = h.last();
+        assert(-b <= y.v() <= b) by { assert(h.last() == h[h.len() - 1]); }
+        assert(all_within(hd, b)) by { assert forall|k: int| 0 <= k < hd.len() implies -b <= (#[trigger] hd[k]).v() <= b by { assert(hd[k] == h[k]); } }
+        lemma_super_smoother_bibo(i, hd, n, b, m);
+        let s = run::<SuperSmoother<Echo>>((None::<T>, i), hd);
+        let o = s.1;
+        let c1 = ss_c1(n);
+        assert(c1 > 0real);
+        let w = y.v() + o.x1.v();
+        let u = rdiv(c1 * w, 2real);
+        lemma_rdiv_mul(c1 * w, 2real);
+        assert(c1 * w <= c1 * (2real * b)) by(nonlinear_arith) requires c1 > 0real, w <= 2real * b;
+        assert(c1 * w >= -(c1 * (2real * b))) by(nonlinear_arith) requires c1 > 0real, w >= -(2real * b);
+        assert(c1 * (2real * b) == 2real * (c1 * b)) by(nonlinear_arith);
+        let ub = c1 * b;
+        assert(ub >= 0real) by(nonlinear_arith) requires ub == c1 * b, c1 > 0real, b >= 0real;
+        assert(-ub <= u <= ub);
+        lemma_two_pole_forced(a, c, o.f2.v(), o.f1.v(), u, m, ub);
+        let nx = super_smoother_own_step(o, y);
+        assert(nx.f1.v() == u + (ss_b1(n) * o.f1.v() + ss_c3(n) * o.f2.v()));
+        assert(nx.f2 == o.f1 && nx.x1 == y);
+        lemma_two_pole_form_dominates(a, c, nx.f1.v(), nx.f2.v());
+    } else {
+        assert(run::<SuperSmoother<Echo>>((None::<T>, i), h) == (None::<T>, i));
+        assert(ss_form(n, 0real, 0real) == 0real) by(nonlinear_arith) requires ss_form(n, 0real, 0real) == 0real * 0real - ss_b1(n) * (0real * 0real) + (ss_a1(n) * ss_a1(n)) * (0real * 0real);
+        assert(m * m >= 0real) by(nonlinear_arith);
+        assert((1real - c * c) * (0real * 0real) == 0real) by(nonlinear_arith);
+    }
+}
